@@ -203,9 +203,56 @@ def entryErrors (g : Graph) (o : WalkOpts) (key : Spec) : Entry → List ErrOut
     if o.followDynamic && missing then [] else [.moduleErr code]
   | .redirect _ => []
 
-/-- `walk(..).errors()` collected: per entry the pushed errors are popped from the back -/
+/-- the key of the missing entry `check_resolution` surfaces at the import (it is remembered in
+`surfaced_missing`): the third branch of `checkResolution`, reached under the same conditions -/
+def surfacedKey (g : Graph) (o : WalkOpts) (referrer : Spec) (fileText : Bool) (r : Res) : Option Spec :=
+  match r with
+  | .ok s _ =>
+    let rs := g.scheme referrer
+    let ss := g.scheme s
+    if rs = .https && ss = .http then none
+    else if (rs = .https || rs = .http) && ss = .file && fileText then none
+    else if o.followDynamic then
+      match g.slot (g.resolve s) with
+      | some (.err true _ _) => some (g.resolve s)
+      | _ => none
+    else none
+  | _ => none
+
+/-- the missing entries one yielded entry surfaces in place (same traversal as `entryErrors`) -/
+def entrySurfaced (g : Graph) (o : WalkOpts) (key : Spec) : Entry → List Spec
+  | .module m =>
+    let td : List Spec :=
+      if o.kind.includeTypes then
+        match m.typesDep with
+        | some td => (surfacedKey g o key td.fileText td.res).toList
+        | none => []
+      else []
+    let checkTypes := o.kind.includeTypes && isCheckable o key m.mediaType
+    td ++ (walkDeps o key m).flatMap fun d =>
+      if o.followDynamic || !d.dyn then
+        (surfacedKey g o key d.fileText d.code).toList ++
+        (if checkTypes then (surfacedKey g o key d.fileText d.type).toList else [])
+      else []
+  | _ => []
+
+/-- everything the walk surfaces in place -/
+def surfacedIn (g : Graph) (o : WalkOpts) (w : List (Spec × Entry)) : List Spec :=
+  w.flatMap fun (key, e) => entrySurfaced g o key e
+
+/-- the visited `Missing` entry that was skipped while dynamic imports are followed and that no
+import surfaced: it is reported when the walk is exhausted (`skipped_missing`) -/
+def deferredError (o : WalkOpts) (surfaced : List Spec) : Spec × Entry → Option ErrOut
+  | (key, .err true code _) =>
+    if o.followDynamic && !surfaced.contains key then some (.moduleErr code) else none
+  | _ => none
+
+/-- `walk(..).errors()` collected: per entry the pushed errors are popped from the back; at the
+end of the walk the skipped missing entries nothing surfaced, in visiting order -/
 def Graph.errors (g : Graph) (o : WalkOpts) (roots : List Spec) : List ErrOut :=
-  (g.walk o roots).flatMap fun (key, e) => (entryErrors g o key e).reverse
+  let w := g.walk o roots
+  (w.flatMap fun (key, e) => (entryErrors g o key e).reverse) ++
+    w.filterMap (deferredError o (surfacedIn g o w))
 
 /-- `walk(..).validate()`: the first error, if any -/
 def Graph.validate (g : Graph) (o : WalkOpts) (roots : List Spec) : Option ErrOut :=
